@@ -87,6 +87,9 @@ func (e *Engine) denied(fn *ssa.Function) bool {
 	if fn.Pkg == nil {
 		return false
 	}
+	if fn.Signature.Recv() != nil && fn.Pkg.Pkg.Path() == "fmt" && strings.Contains(fn.String(), "fmt.wrapError") {
+		return false
+	}
 	return e.denyPkgs[fn.Pkg.Pkg.Path()]
 }
 
